@@ -43,6 +43,12 @@ type (
 )
 
 type (
+	regStructT struct {
+		A string
+		N int
+	}
+	regSliceT  []string
+	regMapT    map[string]int
 	safeMapT   map[string]int
 	safeSliceT []int
 	safePtrT   struct{ n int }
@@ -75,7 +81,7 @@ func (safeStrerT) SafeValue()       {}
 func (s safeStrerT) String() string { return "SS<" + s.s + ">" }
 func (c05safeKey) SafeValue()       {}
 
-var c05RegTypes = [][]reflect.Type{{reflect.TypeOf(regIntT(0)), reflect.TypeOf(dblSafeT(0)), reflect.TypeOf(dblSafeStrT{})}, {reflect.TypeOf(regStrT2(""))}, {reflect.TypeOf(regStrerT{}), reflect.TypeOf(regIntStrerT(0))},
+var c05RegTypes = [][]reflect.Type{{reflect.TypeOf(regIntT(0)), reflect.TypeOf(dblSafeT(0)), reflect.TypeOf(dblSafeStrT{})}, {reflect.TypeOf(regStrT2(""))}, {reflect.TypeOf(regStrerT{}), reflect.TypeOf(regIntStrerT(0)), reflect.TypeOf(regStructT{}), reflect.TypeOf(regSliceT{}), reflect.TypeOf(regMapT{})},
 	// built-in types can be registered too: then every plain operand of that exact type is safe, on every path
 	{reflect.TypeOf(""), reflect.TypeOf(0), reflect.TypeOf(true), reflect.TypeOf(0.5)}}
 
@@ -125,6 +131,8 @@ type c05Leaf struct {
 	Stringer bool        // leaf only under verbs that call String()
 	GoStr    bool        // leaf only under %#v (GoString)
 	OnlyP    bool        // leaf only under %p (a map/slice/pointer, whose %v rendering is not one extent)
+	OnlySafe bool        // composite leaf: evaluated only in configurations where it is safe as a whole
+	TopOnly  bool        // pointer to a composite: prints its pointee at top level only
 }
 
 var c05LeafCache = c05MakeLeaves()
@@ -186,6 +194,14 @@ func c05MakeLeaves() []c05Leaf {
 	add(c05Leaf{Name: "Safe(SafeValue + registrable int)", Redact: redact.Safe(dblSafeT(6)), Fmt: dblSafeT(6), Safe: true, RegIdx: -1})
 	add(c05Leaf{Name: "Unsafe(SafeValue + registrable int)", Redact: redact.Unsafe(dblSafeT(6)), Fmt: dblSafeT(6), RegIdx: -1})
 	add(c05Leaf{Name: "Unsafe(registrable int)", Redact: redact.Unsafe(regIntT(5)), Fmt: regIntT(5), RegIdx: -1})
+	// composite types registered as safe, by value and through a pointer (classification happens on the way down)
+	add(c05Leaf{Name: "registrable struct", Redact: regStructT{"prod", 7}, Fmt: regStructT{"prod", 7}, RegIdx: 2, OnlySafe: true})
+	add(c05Leaf{Name: "pointer to registrable struct", Redact: &regStructT{"prod", 7}, Fmt: &regStructT{"prod", 7}, RegIdx: 2, OnlySafe: true, TopOnly: true})
+	add(c05Leaf{Name: "registrable slice type", Redact: regSliceT{"a", "b"}, Fmt: regSliceT{"a", "b"}, RegIdx: 2, OnlySafe: true})
+	add(c05Leaf{Name: "pointer to registrable slice type", Redact: &regSliceT{"a", "b"}, Fmt: &regSliceT{"a", "b"}, RegIdx: 2, OnlySafe: true, TopOnly: true})
+	add(c05Leaf{Name: "registrable map type", Redact: regMapT{"k": 1}, Fmt: regMapT{"k": 1}, RegIdx: 2, OnlySafe: true})
+	add(c05Leaf{Name: "pointer to registrable map type", Redact: &regMapT{"k": 1}, Fmt: &regMapT{"k": 1}, RegIdx: 2, OnlySafe: true, TopOnly: true})
+	add(c05Leaf{Name: "Safe(pointer to plain struct)", Redact: redact.Safe(&structInner{65, 66}), Fmt: &structInner{65, 66}, Safe: true, RegIdx: -1, TopOnly: true})
 	// pointer-like kinds: %p prints their address through a path of its own
 	add(c05Leaf{Name: "unsafe *int", Redact: &c05IntVar, Fmt: &c05IntVar, RegIdx: -1, OnlyP: true})
 	add(c05Leaf{Name: "unsafe map", Redact: c05MapU, Fmt: c05MapU, RegIdx: -1, OnlyP: true})
@@ -397,6 +413,12 @@ func c05Eval(cs c05Case, seen func(string)) (string, string) {
 		if d.Verb == 'T' || d.Verb == 'w' || d.zeroMeetsMinus() {
 			return "", ""
 		}
+		if (la.OnlySafe && !la.isSafe(cs.Config)) || (lb.OnlySafe && !lb.isSafe(cs.Config) && (sh.Two || cs.Shape >= 2)) {
+			return "", ""
+		}
+		if (la.TopOnly || lb.TopOnly) && cs.Shape >= 2 {
+			return "", "" // inside a container a pointer prints as an address
+		}
 		if (d.Verb == 'p') != (la.OnlyP || (lb.OnlyP && (sh.Two || cs.Shape >= 2))) {
 			return "", "" // %p only for the pointer-like leaves, and those only under %p
 		}
@@ -484,7 +506,7 @@ func checkC05(c *Ctx) {
 	nl := len(leaves)
 	dsOne := quickDirectives()
 	dsPair := midDirectives()
-	configs := []int{0, 15}
+	configs := []int{0, 7, 15}
 	if !c.Quick() {
 		dsPair = quickDirectives()
 		dsPair.Wids = []int{0, 3}
